@@ -1511,8 +1511,36 @@ static void compile_expr(CG *cg, ASTNode *node) {
         break;
 
     case AST_STRING: {
-        uint32_t idx = nvm_add_string(cg->module, node->as.string_val,
-                                       (uint32_t)strlen(node->as.string_val));
+        /* The lexer keeps the literal's source text; process the escape
+         * sequences here, as the C compiler does for the native backend */
+        const char *src = node->as.string_val;
+        size_t src_len = strlen(src);
+        char *val = malloc(src_len + 1);
+        if (!val) {
+            cg_error(cg, node->line, "out of memory");
+            break;
+        }
+        size_t vlen = 0;
+        for (size_t k = 0; k < src_len; k++) {
+            if (src[k] == '\\' && k + 1 < src_len) {
+                k++;
+                switch (src[k]) {
+                    case 'n':  val[vlen++] = '\n'; break;
+                    case 't':  val[vlen++] = '\t'; break;
+                    case 'r':  val[vlen++] = '\r'; break;
+                    case 'a':  val[vlen++] = '\a'; break;
+                    case 'b':  val[vlen++] = '\b'; break;
+                    case 'f':  val[vlen++] = '\f'; break;
+                    case 'v':  val[vlen++] = '\v'; break;
+                    default:   val[vlen++] = src[k]; break; /* \\ \" \' \? */
+                }
+            } else {
+                val[vlen++] = src[k];
+            }
+        }
+        val[vlen] = '\0';
+        uint32_t idx = nvm_add_string(cg->module, val, (uint32_t)vlen);
+        free(val);
         emit_op(cg, OP_PUSH_STR, idx);
         break;
     }
